@@ -31,23 +31,27 @@ def main():
         f.write(b"FORGED " * 60)
     key, pub = os.path.join(S, "test_x25519.pem"), os.path.join(S, "test_x25519_pub.pem")
     cases = []
-    for layers in (["-l", "encrypt"], ["-l", "compress", "encrypt"]):
-        tag = "+".join(layers[1:])
+    for layers in (["-l", "encrypt"], ["-l", "compress", "-l", "encrypt"]):
+        tag = "+".join(x for x in layers if x != "-l")
         rc, _, err = run(mlar, ["create"] + layers + ["-p", pub, "-o", "e.mla", "--", "genuine.txt"], work)
         rc2, _, _ = run(mlar, ["create", "-l", "-o", "p.mla", "--", "forged.txt"], work)
+        rc3, _, _ = run(mlar, ["create", "-l", "compress", "-o", "pc.mla", "--", "forged.txt"], work)
+        rc2 = rc2 or rc3
         msgs = []
         if rc or rc2:
             msgs.append("create failed: " + err[-100:].decode("utf8", "replace"))
         else:
             e = open(os.path.join(work, "e.mla"), "rb").read()
             p = open(os.path.join(work, "p.mla"), "rb").read()
+            pc = open(os.path.join(work, "pc.mla"), "rb").read()
             n = int.from_bytes(e[41:49], "little")
             hl = 3 + 4 + 1 + 1 + 32 + 8 + 48 * n + 8
             rc0, out0, _ = run(mlar, ["list", "-i", "e.mla", "-k", key], work)
             if rc0 != 0 or b"genuine.txt" not in out0:
                 msgs.append("the unaltered archive is not listed with its recipient's key")
             for newlayers in sorted({e[7] & ~1 & 0xFF, 0}):
-                forged = bytearray(e[:hl]) + p[9:]
+                # the attacker's body matches the layers the altered header still announces
+                forged = bytearray(e[:hl]) + (pc[9:] if newlayers & 2 else p[9:])
                 forged[7] = newlayers
                 with open(os.path.join(work, "x.mla"), "wb") as f:
                     f.write(forged)
